@@ -112,6 +112,31 @@ def gen_cases(rng, tier):
             kind = 'dec' if W.is_decimal(F(a)) and rng.random() < 0.6 else 'frac'
             cases.append({'dm': rng.choice(W.MODES), 'pre': False, 'script': script, 'hist': [],
                           'q': {'k': 'rate', 'o': o, 'x': ['q', [kind, a], u], 'r': r}})
+    # boundary-directed: money amounts whose exact product / quotient lies as close
+    # as arithmetically possible to a rounding tie of the target currency (a hidden
+    # intermediate rounding flips the result there)
+    from vlib.nearties import near_tie_multiples
+    sfs = dict(CURS)
+    tag = 'ntx'
+    script = _world(rng, tag)
+    for i in range(10 if tier == 'quick' else 60):
+        cu, ct = rng.sample([c for c, _ in CURS], 2)
+        amt = F(rng.choice(['10987631/1000000', '1234567/1000000', '146506779/1000000',
+                            '839581/100000', '7/8', '1324503/10000']))
+        r = [cu, ['int', '1/1'], ct, ['dec', frs(amt)]]
+        for o in ('mul', 'div'):
+            k = _rate_fields(r, 'MHEVEN')
+            src, dst = (cu, ct) if o == 'mul' else (ct, cu)
+            if o == 'div':
+                k = 1 / k
+            for n in near_tie_multiples(k, F(sfs[src]), F(sfs[dst]), count=2):
+                a = n * F(sfs[src])
+                if a > 10 ** 12:
+                    continue
+                for sign in (1, -1):
+                    cases.append({'dm': rng.choice(W.MODES), 'pre': False, 'script': script,
+                                  'hist': [], 'q': {'k': 'rate', 'o': o if o == 'div' else rng.choice(['mul', 'rmul']),
+                                                    'x': ['q', ['dec', frs(sign * a)], src], 'r': r}})
     return cases
 
 
